@@ -52,9 +52,9 @@ def build():
         "setup_cmd": "./check setup",
         "hooks": {
             "guard": "fast_qr_verif",
-            "enable": "RUSTFLAGS='--cfg fast_qr_verif --check-cfg cfg(fast_qr_verif)' (set by ./check when it builds harness/ in its 'hooked' flavour; the 'core' flavour uses the public API only and no cfg)",
+            "enable": "RUSTFLAGS='--cfg fast_qr_verif --check-cfg cfg(fast_qr_verif)' (set by ./check when it builds harness/ in its 'hooked' flavour; the 'core' flavour uses the public API only and no cfg; the 'wasm' flavour adds --cfg fast_qr_verif_wasm_only: host build of wasm.rs without the stage re-exports)",
             "baseline_off_cmd": "cd /repo && cargo nextest run --workspace --no-fail-fast --offline",
-            "source_commits": ["d364800", "b446e61"],
+            "source_commits": ["d364800", "b446e61", "ecbe32f", "77b8758"],
             "add_only": True,
         },
         "engines": [
